@@ -828,6 +828,23 @@ func genC07(r *Run) {
 			}
 		}
 	}
+	// every total size of the option area around the 300-octet floor (the area is 60 octets there) and the
+	// 255-octet instance limit: one option of each length 0..130 and 240..270 next to a message type
+	for _, c := range []byte{43, 82, 12} {
+		for l := 0; l <= 270; l++ {
+			if l > 130 && l < 240 {
+				continue
+			}
+			a := r.randPkt(map[byte][]byte{53: {1}, c: r.Bytes(l)})
+			p := pktOfArgs(a)
+			validateWire(r, p, p.ToBytes(), Case{eV4Enc, a}.Line())
+			evals++
+			if l%7 == 0 || (l >= 50 && l <= 60) {
+				r.Add(eV4Enc, a...)
+				r.Add(eV4EncDec, a...)
+			}
+		}
+	}
 	// sampled larger sets
 	n := r.N(600, 30000)
 	for i := 0; i < n; i++ {
